@@ -7,18 +7,18 @@ import ChalkModel.Lemmas.FixedPointSemC
 namespace Chalk.FixedPoint.Cyc
 
 section
-variable {c : Bool} {inst : Instance} {dom : List Nat}
+variable {c : Bool} {inst : Instance} {dom : List Nat} {fx : Bool}
 
 /-- the node of the goal being solved, while it is on the stack -/
 def headNode (s0 : St) (g : Nat) (v : V) : Node := ⟨g, v, some s0.stack.length, some s0.graph.length⟩
 
 /-- `s` is the state at the start of an iteration of the loop for the new goal `g`, which was
     pushed on the state `s0` -/
-structure LoopSt (c : Bool) (inst : Instance) (dom : List Nat) (s0 : St) (g : Nat) (s : St) : Prop where
-  i0 : Inv c inst dom s0
+structure LoopSt (c : Bool) (inst : Instance) (dom : List Nat) (fx : Bool) (s0 : St) (g : Nat) (s : St) : Prop where
+  i0 : Inv c inst dom fx s0
   u0 : Undef s0 g
   gdom : g ∈ dom
-  inv : Inv c inst dom s
+  inv : Inv c inst dom fx s
   graph : ∃ v, s.graph = s0.graph ++ [headNode s0 g v]
   slen : s.stack.length = s0.stack.length + 1
   sext : ∀ (i : Nat) (e : StackEntry), s0.stack[i]? = some e → ∃ e' : StackEntry, s.stack[i]? = some e' ∧
@@ -26,8 +26,10 @@ structure LoopSt (c : Bool) (inst : Instance) (dom : List Nat) (s0 : St) (g : Na
   cacheExt : ∀ k v, InCache s0 k v → InCache s k v
   low : ∀ k, Undef s0 k → Def s k (bot c) → ¬ InG c inst s0 k
   cacheMode : s.cache.isSome = s0.cache.isSome
+  intr : s0.interrupted = true → s.interrupted = true
+  quiet : QuietSt s0 → QuietSt s ∧ (s0.interrupted = false → s.interrupted = false)
 
-theorem LoopSt.ext {s0 s : St} {g : Nat} (L : LoopSt c inst dom s0 g s) : ∀ k v, Def s0 k v → Def s k v := by
+theorem LoopSt.ext {s0 s : St} {g : Nat} (L : LoopSt c inst dom fx s0 g s) : ∀ k v, Def s0 k v → Def s k v := by
   intro k v h
   cases h with
   | inl h => exact Or.inl (L.cacheExt k v h)
@@ -36,29 +38,37 @@ theorem LoopSt.ext {s0 s : St} {g : Nat} (L : LoopSt c inst dom s0 g s) : ∀ k 
     obtain ⟨w, hw⟩ := L.graph
     exact Or.inr ⟨i, n, by rw [hw]; exact getElem?_prefix hn, hg, hv⟩
 
-theorem LoopSt.inG {s0 s : St} {g : Nat} (L : LoopSt c inst dom s0 g s) {k : Nat} (h : InG c inst s0 k) :
+theorem LoopSt.inG {s0 s : St} {g : Nat} (L : LoopSt c inst dom fx s0 g s) {k : Nat} (h : InG c inst s0 k) :
     InG c inst s k :=
   InG.mono L.inv L.ext L.low h
 
 /-- the pessimistic outcome of an iteration is correct -/
 theorem IterFact.not_tgt {s s' : St} {m : Min} {g : Nat} {v : V} (h : IterFact c inst s s' m g v)
     (hv : v = bot c) : ¬ Tgt c inst g := by
-  cases h with
-  | inl h => rw [hv] at h; exact absurd h.1.symm (top_ne_bot c)
-  | inr h =>
-    intro ht
+  rcases h with h | h | h
+  · rw [hv] at h; exact absurd h.1.symm (top_ne_bot c)
+  · intro ht
     exact J.dual (J.mono (fun j hj => hj.1) h.2) ht.unfold
+  · rw [hv] at h; exact absurd h.1 (bot_ne_ambig c)
 
 theorem IterFact.val {s s' : St} {m : Min} {g : Nat} {v : V} (h : IterFact c inst s s' m g v) :
-    v = top c ∨ v = bot c := by
-  cases h with
-  | inl h => exact Or.inl h.1
-  | inr h => exact Or.inr h.1
+    v = top c ∨ v = bot c ∨ v = .ambig := by
+  rcases h with h | h | h
+  · exact Or.inl h.1
+  · exact Or.inr (Or.inl h.1)
+  · exact Or.inr (Or.inr h.1)
+
+theorem IterFact.ambig {s s' : St} {m : Min} {g : Nat} (h : IterFact c inst s s' m g .ambig) :
+    s'.interrupted = true := by
+  rcases h with h | h | h
+  · exact absurd h.1.symm (top_ne_ambig c)
+  · exact absurd h.1.symm (bot_ne_ambig c)
+  · exact h.2
 
 /-- the relative lower bound, from the state before the push: entries that are new since `s0` and
     pessimistic are outside the fixed point relative to `s0` -/
-theorem loop_low {s0 st s1 : St} {g : Nat} {m : Min} {cur : V} (L : LoopSt c inst dom s0 g st)
-    (i1 : Inv c inst dom s1) (hs : Step c inst st s1 m) (hf : IterFact c inst st s1 m g cur) :
+theorem loop_low {s0 st s1 : St} {g : Nat} {m : Min} {cur : V} (L : LoopSt c inst dom fx s0 g st)
+    (i1 : Inv c inst dom fx s1) (hs : Step c inst st s1 m) (hf : IterFact c inst st s1 m g cur) :
     ∀ k, Undef s0 k → (Def s1 k (bot c) ∨ (k = g ∧ cur = bot c)) → ¬ InG c inst s0 k := by
   intro k hu hk hin
   cases hk with
@@ -73,13 +83,13 @@ theorem loop_low {s0 st s1 : St} {g : Nat} {m : Min} {cur : V} (L : LoopSt c ins
   | inr hk =>
     obtain ⟨hkg, hcur⟩ := hk
     subst hkg
-    cases hf with
-    | inl h => rw [hcur] at h; exact absurd h.1.symm (top_ne_bot c)
-    | inr h =>
-      cases hin.unfold with
-      | inl hd => exact hu _ hd
+    rcases hf with h | h | h
+    · rw [hcur] at h; exact absurd h.1.symm (top_ne_bot c)
+    · cases hin.unfold with
+      | inl hd => exact hd.elim (hu _) (hu _)
       | inr hj =>
         exact J.dual (J.mono (fun j hj => hj.2) h.2) (J.mono (fun j hj => L.inG hj) hj.2)
+    · rw [hcur] at h; exact absurd h.1 (bot_ne_ambig c)
 
 /-- a witness of `s0` is a witness of any state that extends its graph and keeps its flags -/
 theorem Wit.from0 {s0 sX : St} {lb : Min} {j : Nat} (h : Wit c inst s0 lb j)
@@ -103,19 +113,19 @@ theorem mid_corr {α : Type} (G : List α) (h h' : α) (new : List α) (i : Nat)
   · exact ⟨n, h1.2.2 h', Or.inr ⟨Nat.ne_of_gt h1.1, rfl⟩⟩
 
 /-- the situation after one completed iteration of the loop -/
-structure After (c : Bool) (inst : Instance) (dom : List Nat) (s0 st s1 : St) (g : Nat) (old cur : V)
+structure After (c : Bool) (inst : Instance) (dom : List Nat) (fx : Bool) (s0 st s1 : St) (g : Nat) (old cur : V)
     (m : Min) (new : List Node) : Prop where
-  L : LoopSt c inst dom s0 g st
-  i1 : Inv c inst dom s1
+  L : LoopSt c inst dom fx s0 g st
+  i1 : Inv c inst dom fx s1
   step : Step c inst st s1 m
   fact : IterFact c inst st s1 m g cur
   gt : st.graph = s0.graph ++ [headNode s0 g old]
   g1 : s1.graph = s0.graph ++ headNode s0 g old :: new
   hnew : ∀ n : Node, n ∈ new → n.stackDepth = none ∧ MinLe m n.links
 
-theorem After.intro {s0 st s1 : St} {g : Nat} {m : Min} {cur : V} (L : LoopSt c inst dom s0 g st)
-    (i1 : Inv c inst dom s1) (hs : Step c inst st s1 m) (hf : IterFact c inst st s1 m g cur) :
-    ∃ old new, After c inst dom s0 st s1 g old cur m new := by
+theorem After.intro {s0 st s1 : St} {g : Nat} {m : Min} {cur : V} (L : LoopSt c inst dom fx s0 g st)
+    (i1 : Inv c inst dom fx s1) (hs : Step c inst st s1 m) (hf : IterFact c inst st s1 m g cur) :
+    ∃ old new, After c inst dom fx s0 st s1 g old cur m new := by
   obtain ⟨old, hold⟩ := L.graph
   obtain ⟨new, hnew, hn⟩ := hs.graph
   refine ⟨old, new, L, i1, hs, hf, hold, ?_, hn⟩
@@ -125,10 +135,10 @@ theorem After.intro {s0 st s1 : St} {g : Nat} {m : Min} {cur : V} (L : LoopSt c 
 section AfterLemmas
 variable {s0 st s1 : St} {g : Nat} {old cur : V} {m : Min} {new : List Node}
 
-theorem After.slen (A : After c inst dom s0 st s1 g old cur m new) : s1.stack.length = s0.stack.length + 1 := by
+theorem After.slen (A : After c inst dom fx s0 st s1 g old cur m new) : s1.stack.length = s0.stack.length + 1 := by
   rw [A.step.stack.1, A.L.slen]
 
-theorem After.sext (A : After c inst dom s0 st s1 g old cur m new) :
+theorem After.sext (A : After c inst dom fx s0 st s1 g old cur m new) :
     ∀ (i : Nat) (e : StackEntry), s0.stack[i]? = some e → ∃ e' : StackEntry, s1.stack[i]? = some e' ∧
       e'.coinductiveGoal = e.coinductiveGoal ∧ (e.cycle = true → e'.cycle = true) := by
   intro i e he
@@ -136,20 +146,21 @@ theorem After.sext (A : After c inst dom s0 st s1 g old cur m new) :
   obtain ⟨e'', he'', hc'', hf''⟩ := A.step.stack.2 i e' he'
   exact ⟨e'', he'', hc''.trans hc', fun h => hf'' (hf' h)⟩
 
-theorem After.cacheExt (A : After c inst dom s0 st s1 g old cur m new) :
+theorem After.cacheExt (A : After c inst dom fx s0 st s1 g old cur m new) :
     ∀ k v, InCache s0 k v → InCache s1 k v :=
   fun k v h => A.step.cacheExt k v (A.L.cacheExt k v h)
 
-theorem After.g0 (A : After c inst dom s0 st s1 g old cur m new) {i : Nat} {n : Node}
+theorem After.g0 (A : After c inst dom fx s0 st s1 g old cur m new) {i : Nat} {n : Node}
     (h : s0.graph[i]? = some n) : s1.graph[i]? = some n := by
   rw [A.g1]; exact getElem?_prefix h
 
-theorem After.head (A : After c inst dom s0 st s1 g old cur m new) :
+theorem After.head (A : After c inst dom fx s0 st s1 g old cur m new) :
     s1.graph[s0.graph.length]? = some (headNode s0 g old) := by
   rw [A.g1]; exact mid_at _ _ _
 
 /-- the outcome is one of the two definite values, and correct if pessimistic -/
-theorem After.cur_val (A : After c inst dom s0 st s1 g old cur m new) : cur = top c ∨ cur = bot c :=
+theorem After.cur_val (A : After c inst dom fx s0 st s1 g old cur m new) :
+    cur = top c ∨ cur = bot c ∨ cur = .ambig :=
   A.fact.val
 
 /-- `s5`: `s1` with the stack popped (the graph is given separately) -/
@@ -161,7 +172,7 @@ structure Popped (s0 s1 s5 : St) : Prop where
   oracleDefault : s5.oracleDefault = s1.oracleDefault
   interrupted : s5.interrupted = s1.interrupted
 
-theorem After.popExt (A : After c inst dom s0 st s1 g old cur m new) {s5 : St} (P : Popped s0 s1 s5) :
+theorem After.popExt (A : After c inst dom fx s0 st s1 g old cur m new) {s5 : St} (P : Popped s0 s1 s5) :
     StackExt s0.stack s5.stack := by
   refine ⟨P.slen, fun i e he => ?_⟩
   obtain ⟨e', he', h2⟩ := A.sext i e he
@@ -177,7 +188,7 @@ theorem Popped.inCache {s5 : St} (P : Popped s0 s1 s5) {k : Nat} {v : V} :
   unfold InCache
   rw [P.cache]
 
-theorem After.popCo (A : After c inst dom s0 st s1 g old cur m new) {s5 : St} (P : Popped s0 s1 s5) :
+theorem After.popCo (A : After c inst dom fx s0 st s1 g old cur m new) {s5 : St} (P : Popped s0 s1 s5) :
     ∀ e, e ∈ s5.stack → e.coinductiveGoal = c := by
   intro e he
   obtain ⟨i, hi⟩ := List.getElem?_of_mem he
@@ -186,7 +197,7 @@ theorem After.popCo (A : After c inst dom s0 st s1 g old cur m new) {s5 : St} (P
   exact A.i1.stackCo e (List.mem_of_getElem? hi)
 
 /-- a witness in `s1` whose node is not the head node, seen from a state that keeps the other nodes -/
-theorem After.wit (A : After c inst dom s0 st s1 g old cur m new) {s5 : St} (P : Popped s0 s1 s5)
+theorem After.wit (A : After c inst dom fx s0 st s1 g old cur m new) {s5 : St} (P : Popped s0 s1 s5)
     {h5 : Node} (hg5 : s5.graph = s0.graph ++ h5 :: new) (hgo : h5.goal = g) (hsd : h5.stackDepth = none)
     (hv : flagAt s1.stack s0.stack.length → old = top c → h5.solution = top c)
     {lb : Min} {j : Nat} (h : Wit c inst s1 lb j) : Wit c inst s5 lb j := by
